@@ -18,7 +18,7 @@ func C14(c *core.Ctx) {
 	}
 
 	c.SetCov("rule", "seeded randomised histories biased towards Update FAR (tunnel changes, SNDEM on/off, unknown FAR ids, several FARs per message, end markers enabled / disabled); "+
-		"on BESS and on UP4 (packet-outs received by the harness' P4Runtime switch); every packet on the end-marker socket is decoded (Ethernet/IPv4/UDP/GTPv1-U) and compared with EndMarkersDue of the pre-update session; the farLookup add is held for 25 ms so that "+
+		"on BESS and on UP4 (packet-outs received by the harness' P4Runtime switch; one UP4 shard in three has writes of a quarter of its requests failed by the switch: a rejected update emits no marker); every packet on the end-marker socket is decoded (Ethernet/IPv4/UDP/GTPv1-U) and compared with EndMarkersDue of the pre-update session; the farLookup add is held for 25 ms so that "+
 		"a marker emitted before the new rule was acknowledged is observed as early; evaluations = script steps")
 
 	nup4 := 3
@@ -30,7 +30,7 @@ func C14(c *core.Ctx) {
 		dir, trace := shardDir(c, i)
 		if i >= nshards { // UP4: the markers leave as packet-outs on the P4Runtime stream
 			return "e2e-up4", Up4Params{Dir: dir, Trace: trace, AgentBin: filepath.Join(c.BinDir, "verif-agent"), N4Addr: n4For(i),
-				Seed: c.Seed*1000 + 160 + int64(i), Scenarios: scenarios, Steps: steps, Markers: 1 + (i-nshards)%3/2}
+				Seed: c.Seed*1000 + 160 + int64(i), Scenarios: scenarios, Steps: steps, Markers: 1 + (i-nshards)%3/2, Faults: (i-nshards)%3 == 1}
 		}
 
 		return "e2e-rand", E2EParams{Dir: dir, Trace: trace, AgentBin: filepath.Join(c.BinDir, "verif-agent"), N4Addr: n4For(i),
